@@ -1005,12 +1005,14 @@ theorem updateDispatch_table (m : Master) (msgT fromNode rs : Nat) (msg : Bytes)
   by_cases h1 : msgT = MESH_ADDR_LOOKUP ∨ msgT = MESH_ID_LOOKUP
   · have h3 : msgT ≠ MESH_ADDR_RELEASE := by
       rcases h1 with h | h <;> simp [h, MESH_ADDR_RELEASE, MESH_ADDR_LOOKUP, MESH_ID_LOOKUP]
-    simp only [h1, h3, ↓reduceIte]
-    cases lookupReply m msgT msg <;> rfl
+    by_cases hl : lookupLongEnough msgT msg = true
+    · simp only [h1, hl, h3, and_self, ↓reduceIte]
+      cases lookupReply m msgT msg <;> rfl
+    · simp only [h1, hl, h3, and_false, ↓reduceIte, Bool.false_eq_true]
   · by_cases h3 : msgT = MESH_ADDR_RELEASE
     · subst h3
-      simp only [h1, ↓reduceIte]
-    · simp only [h1, h3, ↓reduceIte]
+      simp only [h1, false_and, ↓reduceIte]
+    · simp only [h1, h3, false_and, ↓reduceIte]
 
 theorem masterUpdate_table (m : Master) (msgT fromNode rs : Nat) (msg : Bytes) (w1 : Bool) :
     (masterUpdate m msgT fromNode rs msg w1).1.table =
